@@ -64,6 +64,12 @@ def stepGuard (k : Consts) (fs : List String) : Option (Consts × String) :=
   | ["emit", _origin, c] =>
     -- a PacketSent-shaped log emitted by contract c: drives the keeper only if c is the packet contract
     (unhex c).map (fun c => (k, if hookAccepts k c then "sent" else "ignored"))
+  | ["emitmix", _via, order, c] =>
+    -- one transaction whose receipt holds genuine PacketSent logs of the packet contract (`g`) and look-alike logs of
+    -- contract c (`f`, any other letter) in the given order: the number of sends the hook performs
+    (unhex c).map (fun c =>
+      let logs := order.toList.map (fun ch => if ch == 'g' then k.packetC else c)
+      (k, "sends=" ++ toString (hookRun k (fun (n : Nat) => n + 1) logs 0)))
   | ["spoof", _] => some (k, "unchanged")   -- agent.send through execute by a user: no privileged state may change
   | ["evmrestart"] => some (k, "ok")        -- guards live in code + constants: a restart / upgrade changes neither
   | ["evmupgrade"] => some (k, "ok")
